@@ -317,6 +317,24 @@ def run_record(acc, base, clsname, seed, tier, engines):
         else:
             acc.count(f"outcome.{engine}.{out}")
             jctr[0] += 1
+            if out == "opens-committed-new" and committed and jctr[0] % 3 == 0:
+                # the patch survived as committed: the OLD file list (now a proper prefix of the chain) opened for patching must not
+                # touch it (the name of "its" next patch is taken by a committed container)
+                cp = w.parent / (w.name + "-prefix")
+                shutil.rmtree(cp, ignore_errors=True)
+                shutil.copytree(w, cp)
+                before = fsmon.dir_state(cp)
+                r3, _ = RE.try_open(cls, [cp / n for n in committed], ("r+", "a")[jctr[0] % 2])
+                RE.safe_close(r3, commit=False)
+                gc.collect()
+                after = fsmon.dir_state(cp)
+                acc.count("prefix_opens_after_committed_crash")
+                lost = [n for n in before if n.endswith(".ih5") and RE.is_committed_on_disk(w / n) and after.get(n, [None])[:2] != before[n][:2]]
+                shutil.rmtree(cp, ignore_errors=True)
+                if lost:
+                    acc.violation(f"committed-file-changed-by-prefix-open:{engine}:{clsname}", f"opening the previously committed containers {committed} for patching "
+                                  f"changed/removed the committed container(s) {lost} [engine {engine}, crash point {point}, record {rid}]",
+                                  {"cls": clsname, "seed": seed, "engine": engine, "point": point})
             if out in ("opens-uncommitted", "opens-committed-new", "opens-committed-old") and (out == "opens-uncommitted" or jctr[0] % 5 == 0):
                 mode = ("r+", "a")[jctr[0] % 2]
                 rbad = launder(cls, w) if out == "opens-uncommitted" else None
